@@ -123,6 +123,7 @@ func caseFromFuzz(entry string, src []byte, nameIdx, cpuIdx int) Case {
 }
 
 var execsRe = regexp.MustCompile(`execs: (\d+)`)
+var seedFailRe = regexp.MustCompile(`failure while testing seed corpus entry: \w+/(seed-\d+)`)
 
 // TestFuzzCampaign runs the native fuzz targets of harness/c08/fuzz, one after
 // the other (each with 16 fuzz workers), seeded with the textmut corpus.  The
@@ -206,8 +207,14 @@ func runFuzzTarget(t *testing.T, s *core.Stats, corp *textmut.Corpus, ft fuzzTar
 		if outsideDomain(&k) {
 			continue
 		}
-		if v := Evaluate(theWorker(), &k); v.Outcome != "ok" && v.Outcome != "error" {
+		v := Evaluate(theWorker(), &k)
+		if v.Outcome != "ok" && v.Outcome != "error" {
 			s.Counter("seeds_not_given_to_fuzzer/"+v.Outcome, 1)
+			continue
+		}
+		if v.CPUms > 300 {
+			// the fuzzer has a wall-clock watchdog per input; slow seeds would trip it on a loaded machine
+			s.Counter("seeds_not_given_to_fuzzer/slow", 1)
 			continue
 		}
 		if writeFuzzInput(filepath.Join(seedDir, fmt.Sprintf("seed-%04d", i)), []byte(sd.Text), nameIndex(name), i%len(CPUs)) == nil {
@@ -219,7 +226,7 @@ func runFuzzTarget(t *testing.T, s *core.Stats, corp *textmut.Corpus, ft fuzzTar
 	deadline := time.Duration(fuzzTime) * time.Second
 	var execs int64
 	crashers := map[string]bool{}
-	for attempt := 0; attempt < 4 && deadline >= 10*time.Second; attempt++ {
+	for attempt := 0; attempt < 8 && deadline >= 10*time.Second; attempt++ {
 		start := time.Now() // wall clock only budgets the campaign; it never decides a verdict
 		cmd := exec.Command(bin, "-test.run=^$", "-test.fuzz=^"+ft.fn+"$", fmt.Sprintf("-test.fuzztime=%ds", int(deadline.Seconds())),
 			fmt.Sprintf("-test.parallel=%d", workers), "-test.fuzzcachedir="+cacheDir, "-test.timeout=0")
@@ -255,6 +262,22 @@ func runFuzzTarget(t *testing.T, s *core.Stats, corp *textmut.Corpus, ft fuzzTar
 			s.Counter(ft.fn+"/crashers_re-evaluated", 1)
 			// move it out of the way so that the next attempt does not stop on it again
 			os.Rename(f, filepath.Join(dir, "crasher-"+filepath.Base(f)))
+		}
+		if m := seedFailRe.FindStringSubmatch(string(out)); m != nil && !found {
+			// the in-process run of a seed died (usually the fuzzer's wall-clock watchdog):
+			// let the worker oracle judge that seed, drop it and go on
+			f := filepath.Join(seedDir, m[1])
+			if src, ni, ci, rerr := readFuzzInput(f); rerr == nil {
+				k := caseFromFuzz(ft.entry, src, ni, ci)
+				k.Kinds = []string{"native-fuzz:seed-died-in-process"}
+				c := s.NewCase(t)
+				judge(s, c, k, corp)
+				c.Done()
+				s.Counter(ft.fn+"/seeds_that_died_in_process_re-evaluated", 1)
+			}
+			if os.Remove(f) == nil {
+				found = true
+			}
 		}
 		if !found {
 			s.Note(fmt.Sprintf("%s: fuzz run ended with an error but left no crasher: %s", ft.fn, lastLines(string(out), 6)))
